@@ -4,8 +4,10 @@
 (* come from the environment so that one configuration serves every tier   *)
 (* and scenario (harness/props/c07.py sets them).                          *)
 (*   C07_D        bound on the history length                              *)
-(*   C07_SCENARIO g0 | g1 | nodes | all                                    *)
-(*   C07_OPS      graph | node | all   (which operations are enabled)      *)
+(*   C07_SCENARIO g0 | g1 | nodes | all | nest                             *)
+(*   C07_OPS      graph | node | all | nest  (which operations are enabled;*)
+(*                all includes wrap; nest = the operations around NESTING: *)
+(*                bind / unbind / select / as_node / with_inputs / wrap)   *)
 (*   C07_OBS      1 = observe / run are operations of the history          *)
 (*   C07_WIDE     1 = larger argument alphabets                            *)
 (*   C07_EMIT     1 = print every history                                  *)
@@ -15,13 +17,15 @@ EXTENDS GraphAlgebra, IOUtils
 
 GraphOps == {"bind", "unbind", "select", "with_entrypoint", "add_nodes", "as_node"}
 NodeOps  == {"with_name", "with_inputs", "with_outputs", "map_over"}
+NestOps  == {"bind", "unbind", "select", "as_node", "with_inputs", "wrap"}
 ObsOps   == {"observe", "run"}
 
 MC_D        == atoi(IOEnv.C07_D)
 MC_Scenario == IOEnv.C07_SCENARIO
 MC_Ops      == (CASE IOEnv.C07_OPS = "graph" -> GraphOps
                   [] IOEnv.C07_OPS = "node"  -> NodeOps \cup {"as_node"}
-                  [] IOEnv.C07_OPS = "all"   -> GraphOps \cup NodeOps)
+                  [] IOEnv.C07_OPS = "nest"  -> NestOps
+                  [] IOEnv.C07_OPS = "all"   -> GraphOps \cup NodeOps \cup {"wrap"})
                \cup (IF IOEnv.C07_OBS = "1" THEN ObsOps ELSE {})
 MC_Wide     == IOEnv.C07_WIDE = "1"
 MC_Emit     == IOEnv.C07_EMIT = "1"
